@@ -452,28 +452,97 @@ def load_corpus():
     return cases
 
 
-def gen_cases(ctx, n):
+def place_case(rng, S, C, O, info, idx):
+    """move a small-box case into a coordinate regime (strict class: exact scaling + translation) or translate it (broad class);
+    None when it would leave the coordinate domain of the library"""
+    if info.get('broad'):
+        # near-degenerate shapes are measured in units: translate only (offsets below 2^53), never scale
+        off = rng.choice(openpaths.BROAD_OFFSETS)
+        tf = (1, rng.choice([-1, 0, 1]) * off, rng.choice([-1, 0, 1]) * off)
+        return dict(S=polys.scale_translate(S, *tf), C=polys.scale_translate(C, *tf), O=openpaths.scale_open(O, tf),
+                    regime='near+%d' % off, k=1, info=info)
+    reg = polys.REGIMES[idx % len(polys.REGIMES)] if not rng.chance(1, 4) else polys.REGIMES[0]
+    S2, C2, tf = polys.apply_regime(rng, S, C, reg)
+    O2 = openpaths.scale_open(O, tf)
+    if polys.maxabs([S2, C2, O2]) > MAX_COORD:
+        # the library's coordinate domain is |x|,|y| <= MAX_COORD = INT64_MAX >> 2 (clipper.core.h): scale only, do not translate
+        tf = (tf[0], 0, 0)
+        S2, C2, O2 = polys.scale_translate(S, tf[0], 0, 0), polys.scale_translate(C, tf[0], 0, 0), openpaths.scale_open(O, tf)
+    if polys.maxabs([S2, C2, O2]) > MAX_COORD:
+        return None
+    return dict(S=S2, C=C2, O=O2, regime=reg[0], k=tf[0], info=info)
+
+
+def gen_cases(ctx, n, n_ends=0):
     cases, rng = [], ctx.rng
     while len(cases) < n:
         S, C, O, info = openpaths.gen_open_case(rng)
-        if info.get('broad'):
-            # near-degenerate shapes are measured in units: translate only (offsets below 2^53), never scale
-            off = rng.choice(openpaths.BROAD_OFFSETS)
-            tf = (1, rng.choice([-1, 0, 1]) * off, rng.choice([-1, 0, 1]) * off)
-            cases.append(dict(S=polys.scale_translate(S, *tf), C=polys.scale_translate(C, *tf), O=openpaths.scale_open(O, tf),
-                              regime='near+%d' % off, k=1, info=info))
-            continue
-        reg = polys.REGIMES[len(cases) % len(polys.REGIMES)] if not rng.chance(1, 4) else polys.REGIMES[0]
-        S2, C2, tf = polys.apply_regime(rng, S, C, reg)
-        O2 = openpaths.scale_open(O, tf)
-        if polys.maxabs([S2, C2, O2]) > MAX_COORD:
-            # the library's coordinate domain is |x|,|y| <= MAX_COORD = INT64_MAX >> 2 (clipper.core.h): scale only, do not translate
-            tf = (tf[0], 0, 0)
-            S2, C2, O2 = polys.scale_translate(S, tf[0], 0, 0), polys.scale_translate(C, tf[0], 0, 0), openpaths.scale_open(O, tf)
-        if polys.maxabs([S2, C2, O2]) > MAX_COORD:
-            continue
-        cases.append(dict(S=S2, C=C2, O=O2, regime=reg[0], k=tf[0], info=info))
+        c = place_case(rng, S, C, O, info, len(cases))
+        if c is not None:
+            cases.append(c)
+    # the END families (gen/openpaths.py gen_open_ends_case): open paths whose end vertices are hot local maxima / minima of the sweep,
+    # shared end points, ends on closed vertices/edges, horizontals next to local minima
+    while len(cases) < n + n_ends:
+        S, C, O, info = openpaths.gen_open_ends_case(rng)
+        c = place_case(rng, S, C, O, info, len(cases))
+        if c is not None:
+            cases.append(c)
     return cases
+
+
+INV_FIELDS = ('probes', 'open_hot', 'front_viol', 'shared_end_top', 'lm_both', 'lb_horz_right', 'lb_horz_left', 'rb_horz', 'same', 'ok')
+INV_KEYS = dict(
+    front_viol=('sweep-invariant:open-front-edge-ascends',
+                'a hot open-path edge is the front edge of its outrec although it descends its input path (or the back edge although it ascends, or '
+                'neither): the two edges of an open local maximum can then be on the same side, which is the case AddLocalMaxPoly repairs with '
+                'SwapFrontBackSides or gives up on (succeeded_ = false)'),
+    shared_end_top=('sweep-invariant:open-end-vertex-top-shared',
+                    'two active edges have the same OpenStart/OpenEnd vertex as vertex_top: the pair AddLocalMaxPoly\'s IsOpenEnd branches are written for'),
+    rb_horz=('sweep-invariant:right-bound-starts-horizontal',
+             'a local minimum with two bounds whose ascending (right) bound starts with a horizontal edge: InsertLocalMinimaIntoAEL then orders the bounds by '
+             'IsHeadingLeftHorz(*right_bound), which no input reached before'),
+    notsame=('tie-break:sweep-replica', 'the step-by-step replica of ClipperBase::ExecuteInternal in harness/cx_bool.cpp (OPENINV) no longer returns what Execute returns: '
+             'the sweep loop changed; the invariant probes are void until the replica is updated'))
+
+
+def sweep_invariants(ctx, exe, cases, idxs):
+    """Evidence for two pieces of the engine that no input executes (see ctx.cov['unreachable_code']): OPENINV runs the sweep step by step and
+    examines the active edge list after every step.  Any non-zero count is a correspondence break (nofail): the structural argument that makes
+    those lines unreachable no longer holds for the code under test."""
+    lines, owner = [], []
+    for ci in idxs:
+        c = cases[ci]
+        if polys.maxabs([c['S'], c['C'], c['O']]) > MAX_COORD:
+            continue
+        for (ct, fr) in ALL_COMBOS:
+            lines.append('OPENINV %d %d %d %d %s %s %s' % (ct, fr, ctx.rng.below(2), ctx.rng.below(2), vf.fmt_paths(c['S']), vf.fmt_paths(c['O']), vf.fmt_paths(c['C'])))
+            owner.append((ci, ct, fr))
+    outs = run_harness(exe, lines)
+    tot = {k: 0 for k in INV_FIELDS}
+    tot.update(runs=0, runs_with_horizontal_left_bound=0, runs_with_hot_open_edges=0, not_evaluated=0)
+    first = {}
+    for (ci, ct, fr), line, out in zip(owner, lines, outs):
+        t = out.split()
+        if len(t) != 1 + len(INV_FIELDS) or t[0] != 'inv':
+            tot['not_evaluated'] += 1      # a crash here is reported by the main evaluation (same input, BOOL)
+            continue
+        v = dict(zip(INV_FIELDS, map(int, t[1:])))
+        tot['runs'] += 1
+        for k in INV_FIELDS:
+            tot[k] += v[k]
+        tot['runs_with_horizontal_left_bound'] += 1 if v['lb_horz_right'] + v['lb_horz_left'] else 0
+        tot['runs_with_hot_open_edges'] += 1 if v['open_hot'] else 0
+        for k in ('front_viol', 'shared_end_top', 'rb_horz'):
+            if v[k]:
+                first.setdefault(k, (ci, ct, fr, line, out))
+        if not v['same']:
+            first.setdefault('notsame', (ci, ct, fr, line, out))
+    for k, (ci, ct, fr, line, out) in first.items():
+        key, what = INV_KEYS[k]
+        c = cases[ci]
+        ctx.violation(key, '%s/%s: %s  [harness: %s]' % (CT[ct], FR[fr], what, out), nofail=True,
+                      replay=dict(S=c['S'], C=c['C'], O=c['O'], ct=ct, fr=fr, build='plain', regime=c.get('regime', '?'), harness_line=line, harness_output=out))
+    return tot
 
 
 def run(ctx):
@@ -495,7 +564,8 @@ def run(ctx):
         n *= 3      # search budget after a proof break
     corpus = load_corpus()
     ctx.cov['corpus_cases'] = len(corpus)
-    cases = corpus + gen_cases(ctx, n)
+    n_ends = 120 if ctx.quick else 900
+    cases = corpus + gen_cases(ctx, n, n_ends)
     ctx.log('%d cases generated (+%d corpus)' % (len(cases) - len(corpus), len(corpus)))
     fails, stats = evaluate(ctx, exes, oracle, cases)
     ctx.log('evaluated: %d failing (case, rules, build)' % len(primary(fails)))
@@ -520,6 +590,49 @@ def run(ctx):
         for fam in c['info']['fams']:
             ctx.hist('open_family', fam)
         ctx.hist('closed_kinds', '%s/%s' % tuple(c['info']['kinds']))
+    # END families + step-by-step sweep probes (coverage round): what was generated, and the measured structural facts behind the
+    # statement that two pieces of the engine cannot be executed by any input
+    judged = set(stats.get('accepted', []) + stats.get('broad', []))
+    ends = [ci for ci, c in enumerate(cases) if c.get('info', {}).get('ends')]
+    shape = {}
+    for ci in ends:
+        if ci in judged:
+            for k, v in openpaths.end_shape_stats(cases[ci]['O']).items():
+                shape[k] = shape.get(k, 0) + v
+    probe_idx = ends + [ci for ci in range(len(cases)) if ci % 4 == 0 and ci not in set(ends)]
+    inv = sweep_invariants(ctx, exes['plain'], cases, probe_idx)
+    ctx.count('harness_runs', 2 * inv['runs'])
+    ctx.cov['open_end_families'] = dict(
+        what=('gen/openpaths.py gen_open_ends_case: zig-zag polylines with interior local minima and maxima whose end vertices lie inside a closed path and are '
+              'reached going up or going down (zz-ends-in), 2-3 polylines sharing an end point reached from above and below (shared-ends), ends exactly on a '
+              'closed vertex or a lattice point of a closed edge (end-on-closed), ends and interior extrema on the scanline of other vertices (end-shared-y), '
+              'horizontal runs at local minima/maxima heading left and right, also as first/last segment (horz-at-min, horz-end-in); closed paths from '
+              'gen/polys.py, flat-topped/-bottomed rectangles, trapezoids and pentagons (horizontal closed edges at local minima), multiply wound sets. '
+              'Polylines in general position by the Coq predicate are scaled into the 7 regimes and judged by the strict specification, the others are '
+              'translated and judged by the robust pointwise tests.'),
+        cases_generated=len(ends), share_of_stream='%d of %d generated cases' % (len(ends), len(cases) - len(corpus)),
+        cases_judged=len([ci for ci in ends if ci in judged]),
+        judged_strict=len([ci for ci in ends if ci in set(stats.get('accepted', []))]), judged_broad=len([ci for ci in ends if ci in set(stats.get('broad', []))]),
+        distinct_nontrivial=len([1 for (ci, ct, fr) in list(stats.get('nontrivial', ())) + list(stats.get('broad_nontrivial', ())) if ci in set(ends)]),
+        polyline_shapes_in_judged_cases=shape)
+    ctx.cov['unreachable_code'] = dict(
+        what=('clipper.engine.cpp AddLocalMaxPoly `if (IsOpenEnd(e1)) SwapFrontBackSides(..) else if (IsOpenEnd(e2)) SwapFrontBackSides(..)` (hence '
+              'SwapFrontBackSides) and InsertLocalMinimaIntoAEL `else if (IsHorizontal(*right_bound)) { if (IsHeadingLeftHorz(*right_bound)) SwapActives(..) }` '
+              '(hence IsHeadingLeftHorz) are executed by no input: (1) AddPaths_ flags as local minimum the LAST vertex of a flat bottom (prev_v at the first '
+              'strictly rising edge; the wrap-around case only when the last ring vertex is not level with the first), so vertex->next of a local minimum with '
+              'two bounds is strictly higher and only the descending (left) bound can start with a horizontal; OpenStart/OpenEnd minima have one bound.  '
+              '(2) AddLocalMaxPoly receives open edges only from DoMaxima and DoHorizontal, with e1.vertex_top == e2.vertex_top; two active edges reach the same '
+              'vertex only from its two ring neighbours, and for an OpenStart/OpenEnd vertex one of those is the closing link last->first, which no bound '
+              'traverses (no left bound is created at an OpenStart minimum, an OpenStart maximum ends its bound in DoMaxima/DoHorizontal); moreover every '
+              'assignment of front_edge/back_edge of an open outrec (StartOpenPath, AddLocalMinPoly, IntersectEdges, JoinOutrecPaths) makes the ascending '
+              '(wind_dx > 0) edge the front edge, and the two edges of a local maximum have opposite wind_dx, so IsFront(e1) != IsFront(e2).  A change confined '
+              'to those lines cannot alter any result; a change to the code that keeps them dead (the flagging of minima, the front/back assignments, the '
+              'guards) is what the END families, the existing judgement and the probes below are aimed at.'),
+        how_measured=('harness/cx_bool.cpp OPENINV: the statements of ClipperBase::ExecuteInternal run one by one through private access, the active edge list '
+                      'examined after each InsertLocalMinimaIntoAEL / DoHorizontal / DoIntersections / DoTopOfScanbeam; its solution must equal Execute\'s.  '
+                      'All END-family cases and every 4th other case, 16 rule combinations, default build.  front_viol, shared_end_top, rb_horz are the three '
+                      'conditions under which the lines above would run; a non-zero count is reported as sweep-invariant:* (correspondence break).'),
+        measured=inv)
     if stats.get('accepted'):
         c = cases[stats['accepted'][-1]]
         ctx.sample(dict(S=c['S'], C=c['C'], O=c['O'], regime=c['regime'],
@@ -547,7 +660,9 @@ def run(ctx):
                        '(broad class, Coq predicate judged_broad): at least one polyline from 7 near-degenerate families (a vertex 0..3 units beyond the '
                        'closed edge just crossed followed by 1-2 more points, hairpins 1-3 units wide through an edge, grazing vertices, long segments '
                        'passing 0..5 units from a closed vertex, 180-degree spikes, horizontal spikes, first=last loops), translated by 0..2^51, never '
-                       'scaled.  Each case runs under all 16 clip type x fill rule combinations, random PreserveCollinear/ReverseSolution, paths and '
+                       'scaled.  In addition 120 (quick) / 900 (thorough) cases of the END families (cov.open_end_families: hot end vertices at local '
+                       'maxima/minima, shared end points, ends on closed vertices/edges, horizontals at local minima heading left and right), judged in the '
+                       'same two classes.  Each case runs under all 16 clip type x fill rule combinations, random PreserveCollinear/ReverseSolution, paths and '
                        'polytree execution, with and without the open subjects, default and CLIPPER2_HI_PRECISION builds; non-trivial = distinct (case, clip '
                        'type, fill rule) whose specification has at least one cut and one kept run (strict) / at least one robustly kept sample point (broad)')
     ctx.assumptions += ['quantifier read as: closed paths in general position (base/GenPos.v), open polylines arbitrary non-degenerate polylines; inputs whose '
